@@ -1123,6 +1123,14 @@ func (f *Frame) binop(x *ssa.BinOp, r *Term) Val {
 		case token.ADD, token.SUB, token.MUL, token.QUO:
 			return f.ctx.uf("f"+x.Op.String(), SFlt, a, b)
 		}
+	case SSlc:
+		// slices only compare against nil: a slice is nil iff it has no backing array
+		switch x.Op {
+		case token.EQL:
+			return Eq(SlcBase(a), SlcBase(b))
+		case token.NEQ:
+			return Neq(SlcBase(a), SlcBase(b))
+		}
 	default:
 		switch x.Op {
 		case token.EQL:
